@@ -1,7 +1,7 @@
 (* Extract.v — extraction of the executable model (ExtrOcamlBasic only). *)
 Require Extraction.
 Require ExtrOcamlBasic.
-From hls Require Import Base Float Lex Kinds Types Tags Line Media Master Dump.
+From hls Require Import Base Float Lex Kinds Types Tags Line Media Master Dump Builder.
 Extraction Language OCaml.
 Extraction "../ocaml/model.ml"
-  run_media run_media_with run_master with_excess mb_default.
+  run_media run_media_with run_master with_excess mb_default run_tag run_builder.
